@@ -75,7 +75,9 @@ def r1_writers(ctx):
                "last_received is %s: without a reference instant from creation the monitor cannot time out a peer that never answers" % (f[0]["ty"]["s"] if f else "missing"))
     init_ok = False
     for key, body in ctx.P.scan():
-        if not key.startswith(S + "new_client"):
+        if not key.startswith("session::session::"):      # wherever the state is built (new_client, or a constructor helper shared by both roles)
+            continue
+        if not any(st["s"] == "assign" and st["rv"]["r"] == "aggregate" and st["rv"]["kind"].get("adt", "").endswith("HeartbeatState") for bi in body.reachable() for st in body.blocks[bi]["stmts"]):
             continue
         o = ctx.origins(body)
         for bi in body.reachable():
